@@ -26,22 +26,28 @@ import (
 
 type advSim struct {
 	*Sim
-	r         *hx.Rng
-	f         *Forge
-	byz       map[spectypes.OperatorID]bool
-	pending   map[spectypes.OperatorID][]int // wire indices not yet offered
-	done      map[spectypes.OperatorID][]int
-	seenWire  int
-	reported  map[spectypes.OperatorID][]byte // first decision reported by ProcessMsg
-	decVal    map[spectypes.OperatorID][]byte // DecidedValue when the instance first became decided
-	viols     []violation
-	tags      []string
-	compact   bool
-	values    [][]byte
-	direct    [][]byte // everything the adversary crafted (material for later crafting)
-	netFaults bool     // the correct operators' own Broadcast calls fail now and then (after / before sending)
-	alt       *altRole // the correct operators' controllers for a second duty role (other identifier), see crossrole.go
-	altValues [][]byte
+	r           *hx.Rng
+	f           *Forge
+	byz         map[spectypes.OperatorID]bool
+	pending     map[spectypes.OperatorID][]int // wire indices not yet offered
+	done        map[spectypes.OperatorID][]int
+	seenWire    int
+	reported    map[spectypes.OperatorID][]byte // first decision reported by ProcessMsg
+	decVal      map[spectypes.OperatorID][]byte // DecidedValue when the instance first became decided
+	viols       []violation
+	tags        []string
+	compact     bool
+	values      [][]byte
+	direct      [][]byte // everything the adversary crafted (material for later crafting)
+	decidedOnly bool     // compaction policy "decided-only" (needs compact): instance.Compact runs when an operator's instance becomes
+	//                    decided (any path) and after every decided certificate it receives, but NOT after round-change messages —
+	//                    the first half of the runner's condition. With the full runner policy a decided instance's round-change
+	//                    container is emptied after every round-change, so it never takes part in a partial quorum (known C07 finding)
+	timeoutFaultPct int // with netFaults: probability (percent) that a firing round timer meets a failing Broadcast
+	inContinuation  bool
+	netFaults       bool     // the correct operators' own Broadcast calls fail now and then (after / before sending)
+	alt             *altRole // the correct operators' controllers for a second duty role (other identifier), see crossrole.go
+	altValues       [][]byte
 }
 
 func newAdvSim(env *Env, r *hx.Rng, h specqbft.Height, nByz int, compact bool) *advSim {
@@ -108,7 +114,8 @@ func (a *advSim) distribute() {
 	}
 }
 
-func (a *advSim) suffix() string {
+// suffixPlain: the violation is attributed to the runner's compaction when it was on AND changed some operator's behaviour
+func (a *advSim) suffixPlain() string {
 	if !a.compact {
 		return ""
 	}
@@ -118,6 +125,30 @@ func (a *advSim) suffix() string {
 		}
 	}
 	return "" // compaction was on but never changed any output: not attributable to it
+}
+
+// suffix (agreement oracles): attribution to the compaction PLUS the mechanism of the history, so that the known finding names
+// one specific history — a correct operator accepted a second, different proposal for a round (first-proposal record compacted
+// away, round lowered by a decided message) — and any other disagreement that merely involves compaction is reported as new.
+func (a *advSim) suffix() string {
+	s := a.suffixPlain()
+	if s == "" {
+		return ""
+	}
+	var cs []*Case
+	for _, nd := range a.honest() {
+		cs = append(cs, nd.c)
+	}
+	return s + compactionMechanism(cs)
+}
+
+func compactionMechanism(cs []*Case) string {
+	for _, c := range cs {
+		if c.secondProposal {
+			return ":second-proposal-accepted-for-a-round"
+		}
+	}
+	return ":other-history"
 }
 
 // after: bookkeeping + agreement oracle after an op on node nd
@@ -168,8 +199,16 @@ func (a *advSim) deliverTo(nd *SimNode, enc []byte) {
 	}
 	r := nd.c.applyCtrlDeliver(m)
 	a.collect(nd, r.bcasts)
-	if a.compact {
+	if a.compact && !a.decidedOnly {
 		nd.c.applyCtrlRunnerCompact(decodeMsg(enc))
+	} else if a.compact {
+		if inst := nd.c.ctrl.StoredInstances.FindInstance(a.h); inst != nil && inst.State.Decided {
+			cert := m.Message.MsgType == specqbft.CommitMsgType && uint64(len(m.Signers)) >= a.env.q && m.Message.Height == a.h
+			if cert || !nd.decidedCompacted {
+				nd.decidedCompacted = true
+				nd.c.applyCtrlCompactAt(a.h)
+			}
+		}
 	}
 	a.after(nd, r)
 }
@@ -181,6 +220,13 @@ func (a *advSim) timeoutOn(nd *SimNode) bool {
 	if !c.armedOK {
 		a.tags = append(a.tags, "timer/none-live")
 		return false
+	}
+	if a.netFaults && c.nf == "" && a.r.Chance(a.timeoutFaultPct) { // the operator's own network layer fails exactly at the round expiry
+		c.nf = "a"
+		if !a.inContinuation && a.r.Chance(40) {
+			c.nf = "b" // (the continuation assumes that what correct operators send arrives: only "error after sending" there)
+		}
+		a.tags = append(a.tags, "net/own-broadcast-fails-at-timeout-"+c.nf)
 	}
 	r := c.applyCtrlTimeout(specqbft.Height(c.armedH), specqbft.Round(c.armedR))
 	a.collect(nd, r.bcasts)
@@ -706,6 +752,7 @@ func (a *advSim) continuation() (int, string) {
 		}
 	}
 	pullTried := false
+	a.inContinuation = true
 	for step := 0; ; step++ {
 		a.flushHonest(20000)
 		if a.allDecided() {
@@ -819,6 +866,8 @@ func runSim(r *hx.Rng, withContinuation bool) []caseOut {
 		}
 	}
 	a.netFaults = r.Chance(40)
+	a.timeoutFaultPct = []int{5, 15, 40}[r.Intn(3)]
+	a.decidedOnly = compact && r.Chance(30)
 	a.startAll(vals)
 	if r.Chance(60) { // the correct operators also run a second duty role at this height
 		a.altValues = make([][]byte, env.n)
@@ -834,14 +883,14 @@ func runSim(r *hx.Rng, withContinuation bool) []caseOut {
 	for k := 0; k < steps; k++ {
 		a.schedStep()
 	}
-	tags := []string{"case/sim", fmt.Sprintf("n/%d", env.n), fmt.Sprintf("byz/%d", nByz), fmt.Sprintf("compaction/%v", compact), fmt.Sprintf("second-role/%v", a.alt != nil)}
+	tags := []string{"case/sim", fmt.Sprintf("n/%d", env.n), fmt.Sprintf("byz/%d", nByz), fmt.Sprintf("compaction/%v", compact), fmt.Sprintf("compaction-decided-only/%v", a.decidedOnly), fmt.Sprintf("second-role/%v", a.alt != nil)}
 	if withContinuation {
 		used, why := a.continuation()
 		if used < 0 {
 			if why == "cutoff" {
 				tags = append(tags, "c07/cutoff-reached")
 			} else {
-				a.violate("C07/no-decision-within-f+3-rounds"+a.wedgeCause()+a.suffix(), fmt.Sprintf("n=%d, %d silent Byzantine: the constructed timely continuation did not make all correct operators decide within f+3=%d rounds", env.n, nByz, f+3))
+				a.violate("C07/no-decision-within-f+3-rounds"+a.wedgeCause()+a.suffixPlain(), fmt.Sprintf("n=%d, %d silent Byzantine: the constructed timely continuation did not make all correct operators decide within f+3=%d rounds", env.n, nByz, f+3))
 			}
 		} else {
 			tags = append(tags, fmt.Sprintf("c07/decided-after-%d-rounds", used))
